@@ -22,7 +22,7 @@ RESULTS = {
  "C11-1": ("C11, C17", "C11 after the secure profile with a valid KeyMgmt header on plain servers was added; C17's downgrade case caught it unchanged"),
  "C11-2": ("C11", ""),
  "C11-3": ("C02", "same change as C02-4; C11's own quick tier does not reach 'handler without OnPause + PAUSE with a valid session id' often enough"),
- "C11-4": ("C11, C01", "C11 after the hostile peer that stops reading was added; C01 (stalled reader that pauses) caught it unchanged as a hang"),
+ "C11-4": ("C11", "after the hostile peer that stops reading was added (C01's stalled reader that pauses also showed it as a hang, 3400 runs into its quick tier at the time; with C01's later, more expensive runs the quick tier no longer gets there)"),
  "C12-1": ("C12", "after the flood behaviour was added"), "C12-2": ("C12", "client panic"), "C12-3": ("C12", ""), "C12-4": ("C12", "after holds at the client's shutdown yield sites were added"),
  "C13-1": ("C13", "after Close landing inside a packet callback was added"),
  "C13-2": ("C13", "after UDP-multicast was brought into the simulation"),
